@@ -9,7 +9,7 @@ TRUST = ("Python/numpy semantics; the harness's own oracle code in /verif/mc; th
 
 CHECKS = {
     "C12": dict(engine="lp-metamorphic", design_ref="3/C12",
-        technique="every single perturbation from a fixed menu applied to every captured LP instance (first and last people-maximising round of each enumerated run), each solved by the real Optimizer.optimize_to_humans; metamorphic laws as oracle; the same menu on the full product of tiny instances built on the real Optimizer (industrial foods below and far above the human intake cap, biofuel charge below and above feed charge)",
+        technique="every single perturbation from a fixed menu applied to every captured LP instance (first and last people-maximising round of each enumerated run), each solved by the real Optimizer.optimize_to_humans; metamorphic laws as oracle; the same menu on the full product of tiny instances built on the real Optimizer (industrial foods below and far above the human intake cap, biofuel charge below and above feed charge); each of the two meat inputs (total, running total from month m on / last entry) also raised alone",
         text="For each captured instance: every supply kind x month bucket +5 % of monthly need, each retail waste -5 points, feed/biofuel charge +1 % per bucket, common scale x0.5/x3: percent fed must not decrease / not increase / stay equal (1e-5 relative). Exact mathematical consequences of a correct formulation, checked on every enumerated instance rather than one sweep.",
         note=TRUST + "; an infeasible perturbed programme has no value and is counted, not judged"),
     "C14": dict(engine="histories", design_ref="3/C14",
@@ -17,7 +17,7 @@ CHECKS = {
         text="Result digest (headline, every monthly series, herd dictionaries) of each run at the end of every history equals the digest of the same run alone in a fresh process, also repeated and under other PYTHONHASHSEED values; caller's option dictionaries unmodified; process-global settings fingerprinted after each run.",
         note=TRUST + "; results are bit-for-bit reproducible on the unchanged tree (measured)"),
     "C15": dict(engine="aggregate", design_ref="3/C15",
-        technique="full product of selection patterns (absent / named / '!'-named per country over a 4-country universe: 81 lists) x 5 fraction tables (two with countries whose run reports failure) through the real run_model_no_trade with the per-country step replaced by a stand-in; conformance of the stand-in on real unstubbed runs; every stubbed selection is run twice with the same list object; lists naming a country more than once",
+        technique="full product of selection patterns (absent / named / '!'-named per country over a 4-country universe: 81 lists) x 5 fraction tables (two with countries whose run reports failure) through the real run_model_no_trade with the per-country step replaced by a stand-in; conformance of the stand-in on real unstubbed runs; every stubbed selection is run twice with the same list object; lists naming a country more than once; every selection pattern again under two population overrides (weights = populations handed to the per-country computation)",
         text="Aggregate == sum(pop x min(1,f)) / sum(pop) over exactly the selected rows, within [0,1]; exclusion lists run all other rows, inclusion and mixed lists only the named ones; every selected country once in the results.",
         note=TRUST + "; the stand-in replaces only run_optimizer_for_country"),
     "C17": dict(engine="imports", design_ref="3/C17",
@@ -29,7 +29,7 @@ CHECKS = {
         text="Every linear programme the model builds inside the enumerated configuration space is audited after its last solve: non-negativity, stored food / crops / meat cumulative balances, monthly SCP and sugar caps, the seaweed growth-and-harvest recurrence with density and area bounds, feed/biofuel totals vs the charged series or ceilings, feed never rising in the feed round. The audit is derived from what physically exists each month, not from the model's own constraint objects, so a missing or too-weak balance shows.",
         note=TRUST + "; tolerances 1e-5 relative + 1e-6 absolute on cumulative clauses (CBC primal tolerance 1e-7 per value), 1e-4 absolute on the seaweed recurrence"),
     "C02": dict(engine="pipeline", design_ref="3/C02",
-        technique="same enumeration plus the tiny-instance product (mc/tiny.py); for every LP instance the model's own programme is read out of the PuLP object as matrices and solved with HiGHS, and compared (a) with an independently written formulation built from the captured inputs (1e-5 relative: wrong coefficient, missing constraint, wrong pin) and (b) with the value CBC reported (1e-3 relative: CBC stops up to 5.7e-4 short of its own optimum on the unchanged tree)",
+        technique="same enumeration plus the tiny-instance product (mc/tiny.py); for every LP instance the model's own programme is read out of the PuLP object as matrices and solved with HiGHS, and compared (a) with an independently written formulation built from the captured inputs (1e-5 relative: wrong coefficient, missing constraint, wrong pin) and (b) with the value CBC reported (1e-3 relative: CBC stops up to 5.7e-4 short of its own optimum on the unchanged tree); call histories on one Optimizer object (captured feed-round instance with pins as captured / x0.95 / x0.9 / as captured, people round twice) compared with fresh objects",
         text="For each enumerated (country, configuration, round) the reported optimum is compared with the optimum of an independently written formulation (cumulative what-exists-so-far constraints, documented intake caps, charge or ceilings, pinned bands, monotone feed) solved by a different solver, and with the optimum of the programme the model itself built. The deciding step is the enumeration of instances; HiGHS is the oracle for one instance.",
         note=TRUST + "; CBC and HiGHS trusted as LP solvers; an instance HiGHS cannot solve numerically is counted, not judged"),
     "C03": dict(engine="pipeline", design_ref="3/C03",
@@ -37,7 +37,7 @@ CHECKS = {
         text="For every enumerated run: final < T => essentially no feed/biofuel from human-edible food in any month and final >= no-feed round; no-feed round >= T => final >= T; in every round and month feed and biofuel stay within the independently recomputed demand schedule and are zero after the shut-off month.",
         note=TRUST + "; 0.1 percent-fed-equivalent is the maintainers' own 'essentially zero'; genuine violations by the recorded worst-month-cap mechanism are listed in known_findings.json"),
     "C04": dict(engine="pipeline", design_ref="3/C04",
-        technique="same enumeration; per (round, month) comparison of headline, per-food breakdown, captured allocation and the CSV written to disk; the percent-fed series of every food against the breakdown",
+        technique="same enumeration; per (round, month) comparison of headline, per-food breakdown, captured allocation and the CSV written to disk; the percent-fed series of every food against the breakdown; an alphabet of 8 run titles (dots, commas, replaced characters), one complete run each through the same monitor incl. every round's saved table",
         text="Headline == worst month of the summed per-food series; every series == allocation x unit factor; headline within 0.01 % of the first-stage optimum (tie-break solves never degrade it); saved table == returned numbers; crop split adds up.",
         note=TRUST + "; 1e-6 percentage points absolute allowance on a near-zero optimum (solver primal tolerance)"),
     "C05": dict(engine="pipeline", design_ref="3/C05",
@@ -61,7 +61,7 @@ CHECKS = {
         note=TRUST + "; list alignment of the returned herd lists (stated in the evidence assumptions)"),
     "C07": dict(
         engine="herd", design_ref="3/C07",
-        technique="exhaustive product on feed_the_species + the herd-engine executions with a reference feeder run in lock-step on every (species, month)",
+        technique="exhaustive product on feed_the_species + the herd-engine executions with a reference feeder run in lock-step on every (species, month); the same whole-number supplies in three numeric representations (float64, Python int list, int64 array) compared execution by execution",
         text="Full product of requirement x grass x feed x ruminant x herd size on the real feed_the_species, and every herd-engine execution compared month by month with a boring reference feeder (grass first for ruminants, then feed, in priority order): feed/grass used, fed and starving counts.",
         note=TRUST + "; per-head energy requirement and digestion type read from the species objects"),
     "C08": dict(
@@ -71,17 +71,17 @@ CHECKS = {
         note=TRUST + "; the constants dictionary produced by the option dispatcher is treated as input (C13 checks the dispatcher)"),
     "C09": dict(
         engine="supplies", design_ref="3/C09",
-        technique="same enumeration as C08 restricted to crop/greenhouse families + differential pairs (relocated vs not, expanded vs not) on every enumerated country/horizon/climate; scaled-baseline (x1e-3) no-quantisation check; the greenhouse share handed over in several element types (float64, integer zeros, int8, float32)",
+        technique="same enumeration as C08 restricted to crop/greenhouse families + differential pairs (relocated vs not, expanded vs not) on every enumerated country/horizon/climate; scaled-baseline (x1e-3) no-quantisation check; the greenhouse share handed over in several element types (float64, integer zeros, int8, float32); every sequence (<=2 quick, <=3 thorough) of three greenhouse schedules on one OutdoorCrops object compared with fresh objects, amount grown and schedule unmodified",
         text="Outdoor output == grown x (1 - greenhouse share) x (1 - waste) for every month; greenhouse area schedule (zero until delay+5, monotone, capped); relocation/expansion never lower any month; no rounding/truncation (baseline x 1e-3 scales every month).",
         note=TRUST),
     "C10": dict(
         engine="units", design_ref="3/C10",
-        technique="full product over every source unit triple x every target base triple on the real Food.in_units, against an independently derived factor table and the algebraic laws (round trip, path independence, form/shape preservation, anchors); every ordered sequence of 2 (thorough 3) assignments of the nutrition settings from a 2x2x2x2 menu on the one shared conversions object, all 180 base conversions + anchors after every assignment; totals and single months derived from a series converted like the same quantity written down directly",
+        technique="full product over every source unit triple x every target base triple on the real Food.in_units, against an independently derived factor table and the algebraic laws (round trip, path independence, form/shape preservation, anchors); every ordered sequence of 2 (thorough 3) assignments of the nutrition settings from a 2x2x2x2 menu on the one shared conversions object, all 180 base conversions + anchors after every assignment; totals and single months derived from a series converted like the same quantity written down directly; whole-number quantities in six numeric representations (Python int, int list, int64/int32/float32 arrays, float list) to every target and back",
         text="Exhaustive over the 15 x 18 x 18 unit names (form-consistent triples; mixed-form triples of the default bases), scalar and 1-/3-month series, all 180 target base triples, 1 (quick) or 4 (thorough) population/requirement settings: every conversion factor is compared with the factor that follows from the meaning of the unit names; round trips, conversion through an intermediate unit, label form and shape, and the three anchor identities are checked.",
         note=TRUST + "; 30-day month and 4e6 kcal per dry caloric ton are documented constants"),
     "C11": dict(
         engine="food-ops", design_ref="3/C11",
-        technique="breadth-first explicit-state exploration of operation sequences on real Food objects (exact canonical state, deduplicated) with a reference value type run in lock-step; full product of constructor argument kinds; full product of predicate operands under the four inclusion-flag settings; seed families that share the calorie label but differ in fat/protein label; constructor labels in all 8 suffix mixtures; numpy-integer and mixed-target operations in the alphabet",
+        technique="breadth-first explicit-state exploration of operation sequences on real Food objects (exact canonical state, deduplicated) with a reference value type run in lock-step; full product of constructor argument kinds; full product of predicate operands under the four inclusion-flag settings; seed families that share the calorie label but differ in fat/protein label; constructor labels in all 8 suffix mixtures; numpy-integer and mixed-target operations in the alphabet; every read-only query and ordered pair of label getters on every seed, every comparison on every mixed (single value, series) pair, replace_if_list_with_zeros_is_zero over every triple",
         text="All operation sequences up to depth 1 (all seeds) / 2 (8 seeds) quick, depth 2 complete + depth-3 unary chains thorough, over 22 unary and 5 binary operations with every reached state as partner; after every step labels, label list, form-vs-shape, values, operand immutability and must-refuse are checked against the reference. 16 predicates are compared between single values and one-month series for every operand pair over a 3/4-value menu under all four fat/protein settings.",
         note=TRUST + "; label conventions are those of the Food class docstring; operations the docstrings declare unsupported may refuse"),
     "C13": dict(
